@@ -284,41 +284,9 @@ def run(ctx):
     ok = arities == {"OperatorType.UNARY", "OperatorType.BINARY", "OperatorType.TERNARY"}
     ctx.ob("C01.c", EXP, "_generate_operator", "arms for arity 1, 2, 3", ok, "" if ok else f"{arities}", go)
 
-    # ================================================================ C01.d
-    gn = vm.func("_generate_node")
-    arm = None
-    for n in walk_no_nested(gn):
-        if isinstance(n, ast.If) and "isinstance(node, _Assign)" in norm(n.test):
-            arm = n
-    ctx.need(arm is not None, "_generate_node: _Assign arm vanished")
-    want = {("BLOCKING", False): " = ", ("BLOCKING", True): " = ", ("NON_BLOCKING", False): " <= ", ("NON_BLOCKING", True): " <= ",
-            ("SIGNAL", True): " = ", ("SIGNAL", False): " <= "}
-    frag = _if_chain_paths(arm.body)
-    for (at, var), lit in want.items():
-        env = {"is_variable(node.l)": var}
-        for k in ("BLOCKING", "NON_BLOCKING", "SIGNAL"):
-            env[f"at == AssignType.{k}"] = (k == at)
-        got = set()
-        for p in frag:
-            feas = True
-            for t, pol in p.tests_before(len(p.ev)):
-                v = _beval(t, env)
-                if v is None:
-                    raise AnalysisError(f"_generate_node: test `{norm(t)}` in the _Assign arm is outside the decision-table grammar")
-                if v != pol:
-                    feas = False
-                    break
-            if not feas:
-                continue
-            val = None
-            for st in p.stmts():
-                if isinstance(st, ast.Assign) and norm(st.targets[0]) == "assignment" and isinstance(st.value, ast.Constant):
-                    val = st.value.value
-            got.add(val)
-        ok = got == {lit}
-        ctx.ob("C01.d", VER, "_generate_node", f"at={at}, variable={var} -> '{lit.strip()}'", ok,
-               "" if ok else f"the _Assign arm yields {got} for at={at}, variable={var}; Verilog needs '{lit.strip()}' (blocking vs "
-                             f"non-blocking changes read-after-write semantics)", arm)
+    # ================================================================ C01.d (the operator per assignment kind is read off the text the
+    # interpreted statement printer returns, see _node_printer; the callers' kinds are checked below)
+    _node_printer(ctx, vm)
     sy = vm.func("_generate_synchronous_logic")
     ats = [norm(c.args[1]) for c in ast.walk(sy) if isinstance(c, ast.Call) and norm(c.func) == "_generate_node"]
     ok = ats and all(a in ("AssignType.SIGNAL", "AssignType.NON_BLOCKING") for a in ats)
@@ -334,95 +302,9 @@ def run(ctx):
                 okk = okk and isinstance(c, ast.Call) and norm(c.func) == "_generate_node" and norm(c.args[1]) == "AssignType.BLOCKING"
         ctx.ob("C01.d", VER, fname, "`assign` uses BLOCKING ('=')", okk and n_as == 1, "" if okk else "continuous assignment printed with <=", f)
 
-    # ================================================================ C01.e
-    def arm_of(kind):
-        for n in walk_no_nested(go):
-            if isinstance(n, ast.If) and norm(n.test) == f"arity == OperatorType.{kind}":
-                return n
-        raise AnalysisError(f"_generate_operator: arity == OperatorType.{kind} arm vanished")
-
-    def promo(armnode, sa, sb, ra, rb, extra_env):
-        """for each (sa,sb) valuation: (wrapped operands, result sign)"""
-        res = {}
-        frag = _if_chain_paths(armnode.body)
-        for va, vb in itertools.product((False, True), repeat=2):
-            env = {sa: va, sb: vb}
-            env.update(extra_env)
-            outs = set()
-            for p in frag:
-                feas = True
-                for t, pol in p.tests_before(len(p.ev)):
-                    v = _beval(t, env)
-                    if v is None:
-                        raise AnalysisError(f"_generate_operator: test `{norm(t)}` is outside the decision-table grammar")
-                    if v != pol:
-                        feas = False
-                        break
-                if not feas:
-                    continue
-                wrapped = set()
-                sign = None
-                for st in p.stmts():
-                    if isinstance(st, ast.Assign) and isinstance(st.value, ast.Call) and norm(st.value.func) == "to_signed":
-                        tgt, arg = norm(st.targets[0]), norm(st.value.args[0])
-                        if tgt == arg:
-                            wrapped.add(tgt)
-                        else:
-                            wrapped.add(f"{tgt}<-{arg}")
-                    if isinstance(st, ast.Assign) and norm(st.targets[0]) == "s":
-                        sign = _beval(st.value, env)
-                outs.add((frozenset(wrapped), sign))
-            res[(va, vb)] = outs
-        return res
-    barm = arm_of("BINARY")
-    tab = promo(barm, "s1", "s2", "r1", "r2", {"operator not in ['<<<', '>>>']": True})
-    req = {(False, False): (frozenset(), False), (True, True): (frozenset(), True),
-           (False, True): (frozenset({"r1"}), True), (True, False): (frozenset({"r2"}), True)}
-    for k, v in req.items():
-        ok = tab[k] == {v}
-        ctx.ob("C01.e", EXP, "_generate_operator", f"binary signs {k} -> wrap {sorted(v[0])}, signed={v[1]}", ok,
-               "" if ok else f"binary operator with operand signs {k}: printer wraps/sets {[(sorted(a), b) for a, b in tab[k]]}; Verilog "
-                             f"makes the whole expression unsigned unless the unsigned operand is wrapped in $signed({{1'd0, x}})", barm)
-    tabs = promo(barm, "s1", "s2", "r1", "r2", {"operator not in ['<<<', '>>>']": False})
-    ok = all(v == {(frozenset(), (a or b))} for (a, b), v in tabs.items())
-    ctx.ob("C01.e", EXP, "_generate_operator", "shifts: no promotion of the shift amount", ok, "" if ok else f"{tabs}", barm)
-    tarm = arm_of("TERNARY")
-    tab = promo(tarm, "s2", "s3", "r2", "r3", {"operator == 'm'": True})
-    req = {(False, False): (frozenset(), False), (True, True): (frozenset(), True),
-           (False, True): (frozenset({"r2"}), True), (True, False): (frozenset({"r3"}), True)}
-    for k, v in req.items():
-        ok = tab[k] == {v}
-        ctx.ob("C01.e", EXP, "_generate_operator", f"mux data signs {k} -> wrap {sorted(v[0])}, signed={v[1]}", ok,
-               "" if ok else f"mux with data operand signs {k}: printer wraps/sets {[(sorted(a), b) for a, b in tab[k]]}", tarm)
-    uarm = arm_of("UNARY")
-    neg = None
-    for n in ast.walk(uarm):
-        if isinstance(n, ast.If) and norm(n.test) == "operator == '-'":
-            neg = n
-    ok = False
-    if neg is not None:
-        rs = [st for st in neg.body if isinstance(st, ast.Assign) and norm(st.targets[0]) == "r"]
-        ss = [st for st in neg.body if isinstance(st, ast.Assign) and norm(st.targets[0]) == "s"]
-        if len(rs) == 1 and len(ss) == 1:
-            ife = [n for n in ast.walk(rs[0].value) if isinstance(n, ast.IfExp)]
-            ok = len(ife) == 1 and norm(ife[0].test) == "s1" and norm(ife[0].body) == "r1" and norm(ife[0].orelse) == "to_signed(r1)" \
-                and norm(ss[0].value) == "True"
-            if not ok and len(ife) == 1 and norm(ife[0].test) == "not s1":
-                ok = norm(ife[0].orelse) == "r1" and norm(ife[0].body) == "to_signed(r1)" and norm(ss[0].value) == "True"
-    ctx.ob("C01.e", EXP, "_generate_operator", "unary minus: wrap iff unsigned, result signed", ok,
-           "" if ok else "unary minus no longer wraps an unsigned operand in $signed / result not marked signed", uarm)
-    ts = [n for n in go.body if isinstance(n, ast.FunctionDef) and n.name == "to_signed"]
-    ok = len(ts) == 1 and any(isinstance(n, ast.JoinedStr) and "".join(v.value for v in n.values if isinstance(v, ast.Constant)) ==
-                              "$signed({1'd0, })" for n in ast.walk(ts[0]))
-    ctx.ob("C01.e", EXP, "_generate_operator", "to_signed = $signed({1'd0, x}) (zero-extended, value preserving)", ok,
-           "" if ok else "to_signed no longer zero-extends before $signed", go)
-    # the sign flag returned by the leaf printers is the node's own
-    ge = em.func("_generate_expression")
-    ok = any(isinstance(n, ast.Return) and norm(n.value) == "(ns.get_name(node), node.signed)" for n in ast.walk(ge))
-    ctx.ob("C01.e", EXP, "_generate_expression", "signal sign flag = node.signed", ok, "" if ok else "signal arm does not return node.signed", ge)
-    gc = em.func("_generate_constant")
-    ok = any(isinstance(n, ast.Return) and isinstance(n.value, ast.Tuple) and norm(n.value.elts[1]) == "node.signed" for n in ast.walk(gc))
-    ctx.ob("C01.e", EXP, "_generate_constant", "constant sign flag = node.signed", ok, "" if ok else "constant does not return node.signed", gc)
+    # ================================================================ C01.e / C01.i (decided on the text the interpreted expression printer
+    # returns for model expression trees, see _expression_printer)
+    _expression_printer(ctx, em)
 
     # ================================================================ C01.f (wire classification)
     # a comb target is printed as a continuous `assign` (no reset default) only when its single driver assigns the *whole* signal:
@@ -609,29 +491,6 @@ def run(ctx):
     ctx.ob("C01.h", MEM, "_memory_generate_verilog", "each port clocked by its own clock", len(ck) == 1, "port clock changed", mg)
     _memory_port_setup(ctx, mg)
 
-    # ================================================================ C01.i
-    fmt = None
-    kw = {}
-    for n in ast.walk(gc):
-        if isinstance(n, ast.Call) and isinstance(n.func, ast.Attribute) and n.func.attr == "format" and isinstance(n.func.value, ast.Constant):
-            fmt = n.func.value.value
-            kw = {k.arg: k.value for k in n.keywords}
-    if fmt is None:
-        js = [n for n in ast.walk(gc) if isinstance(n, ast.JoinedStr)]
-        raise AnalysisError("_generate_constant: format changed to an unsupported form") if not js else None
-    ok = fmt == "{sign}{bits}'d{value}"
-    ctx.ob("C01.i", EXP, "_generate_constant", "format <sign><bits>'d<value>", ok, "" if ok else f"format {fmt!r}", gc)
-    ok = "value" in kw and norm(kw["value"]) == "abs(node.value)"
-    ctx.ob("C01.i", EXP, "_generate_constant", "magnitude = abs(node.value) in decimal", ok, "" if ok else f"value = {norm(kw.get('value'))}", gc)
-    s = kw.get("sign")
-    # (comparisons are read in canonical orientation: `a >= b` as `b <= a`)
-    ok = isinstance(s, ast.IfExp) and ((norm(s.test) == "0 <= node.value" and norm(s.body) == "''" and norm(s.orelse) == "'-'") or
-                                       (norm(s.test) == "node.value < 0" and norm(s.body) == "'-'" and norm(s.orelse) == "''") or
-                                       (norm(s.test) == "0 < node.value" and False))
-    ctx.ob("C01.i", EXP, "_generate_constant", "sign '-' iff value < 0", ok, "" if ok else f"sign = {norm(s)}", gc)
-    ok = "bits" in kw and norm(kw["bits"]) in ("str(node.nbits)", "node.nbits")
-    ctx.ob("C01.i", EXP, "_generate_constant", "width = node.nbits", ok, "" if ok else f"bits = {norm(kw.get('bits'))}", gc)
-
     # ================================================================ C01.j
     def minus_one(e, defs):
         k = 0
@@ -747,7 +606,6 @@ def run(ctx):
 
     # ================================================================ C01.n
     _memory_init(ctx, mm)
-    _node_printer(ctx, vm)
 
 
 def _ieval(e, env):
@@ -1066,8 +924,136 @@ def _node_printer(ctx, vm):
                             bad = f"assignment kind {at}, target filter {flt}, {val}: the tree executes {want}, the printed text executes {have}"
         ctx.ob("C01.p", VER, "_generate_node", f"printed text executes like the tree: {label}", bad is None, bad or "", fn)
     ctx.analysed["paths"] += n_ev
-    # the model's kind -> operator table is the one the simulator-side semantics asks for (C01.d decides the table itself)
+    # C01.d: the operator printed for one assignment, per kind and per variable / register target
+    for kind, at in sorted(ats.items()):
+        for tgt, var in (("x", False), ("vz", True)):
+            want_op = "=" if kind == "BLOCKING" else ("<=" if kind == "NON_BLOCKING" else ("=" if var else "<="))
+            got = pyconst.call(fn, {"ns": NS(), "at": at, "level": 0, "node": A(tgt, "a"), "target_filter": None}, consts=consts, funcs=funcs)
+            txt = got[1] if got[0] == "return" and isinstance(got[1], str) else ""
+            ok = txt.split() == [tgt, want_op, "a;"]
+            ctx.ob("C01.d", VER, "_generate_node", f"at={kind}, variable={var} -> '{want_op}'", ok,
+                   "" if ok else f"a single assignment is printed {txt!r} for at={kind}, variable={var}; Verilog needs '{want_op}' (blocking vs non-blocking "
+                                 f"changes read-after-write semantics)", fn)
     ctx.ob("C01.p", VER, "_generate_node", "trees:present", len(trees) >= 7 and n_ev >= 60, f"{n_ev} printer runs", fn)
+
+
+def _expression_printer(ctx, em):
+    """_generate_expression and the printers it dispatches to (_generate_constant / operator / slice / cat / replicate) interpreted
+    (lxs/pyconst.py) on model expression trees -- signals are opaque named leaves with a sign flag and a length -- and the returned
+    (text, signed) compared, blanks aside, with what Verilog's rules require: a constant prints <sign><bits>'d<magnitude>; in a
+    binary (non-shift) or ternary operator exactly the unsigned operand is zero-extended and made $signed when the other is signed,
+    and the result is signed iff one operand is; unary minus makes its operand signed; shifts do not promote; a slice prints
+    inclusive bounds (none for a 1-bit value); Cat prints its operands in reverse (MSB first), Replicate {n{v}}."""
+    import itertools
+    from .. import pyconst
+    from ..pyconst import NS, Native
+    funcs = {f.name: f for f in em.tree.body if isinstance(f, ast.FunctionDef)}
+    classes = {c.name: c for c in em.tree.body if isinstance(c, ast.ClassDef)}
+    ctx.need("_generate_expression" in funcs, "expression.py: _generate_expression vanished")
+    consts = dict(pyconst.module_consts(em.tree))
+    ot = {}
+    for st in (classes["OperatorType"].body if "OperatorType" in classes else []):
+        if isinstance(st, ast.Assign) and isinstance(st.targets[0], ast.Name) and isinstance(st.value, ast.Constant):
+            ot[st.targets[0].id] = st.value.value
+    if ot:
+        consts["OperatorType"] = NS(**ot)
+    ns = NS(get_name=Native(lambda s_: s_["tok"]))
+
+    def S(tok, signed=False, n=8):
+        return NS(__cls__=("Signal",), tok=tok, signed=signed, nbits=n, __len__=n, kind="S")
+
+    def C(v, n=8, signed=False):
+        return NS(__cls__=("Constant",), value=v, nbits=n, signed=signed, __len__=n, kind="K")
+
+    def OP(op, *ops):
+        return NS(__cls__=("_Operator",), op=op, operands=list(ops), kind="O")
+
+    def SL(v, a, b):
+        return NS(__cls__=("_Slice",), value=v, start=a, stop=b, kind="L")
+
+    def CAT(*l):
+        return NS(__cls__=("Cat",), l=list(l), kind="C")
+
+    def REP(v, n):
+        return NS(__cls__=("Replicate",), v=v, n=n, kind="R")
+
+    def ref(e):
+        """what Verilog needs: (text without blanks, signed)"""
+        k = e["kind"]
+        if k == "K":
+            return f"{'-' if e['value'] < 0 else ''}{e['nbits']}'d{abs(e['value'])}", e["signed"]
+        if k == "S":
+            return e["tok"], e["signed"]
+        sg = lambda t: "$signed({1'd0," + t + "})"
+        if k == "O":
+            rs = [ref(x) for x in e["operands"]]
+            op = e["op"]
+            if len(rs) == 1:
+                (r1, s1), = rs
+                if op == "-":
+                    return "(-" + (r1 if s1 else sg(r1)) + ")", True
+                return "(" + op + r1 + ")", s1
+            if len(rs) == 2:
+                (r1, s1), (r2, s2) = rs
+                if op not in ("<<<", ">>>"):
+                    if s2 and not s1:
+                        r1 = sg(r1)
+                    if s1 and not s2:
+                        r2 = sg(r2)
+                return "(" + r1 + op + r2 + ")", s1 or s2
+            (r1, s1), (r2, s2), (r3, s3) = rs
+            if s2 and not s3:
+                r3 = sg(r3)
+            if s3 and not s2:
+                r2 = sg(r2)
+            return "(" + r1 + "?" + r2 + ":" + r3 + ")", s2 or s3
+        if k == "L":
+            r, s_ = ref(e["value"])
+            if e["value"].get("__len__") == 1:
+                return r, s_
+            return r + (f"[{e['stop'] - 1}:{e['start']}]" if e["stop"] - e["start"] > 1 else f"[{e['start']}]"), s_
+        if k == "C":
+            return "{" + ",".join(ref(x)[0] for x in reversed(e["l"])) + "}", False
+        return "{" + str(e["n"]) + "{" + ref(e["v"])[0] + "}}", False
+
+    def run(e):
+        try:
+            got = pyconst.call(funcs["_generate_expression"], {"ns": ns, "node": e}, consts=consts, funcs=funcs, classes=classes)
+        except pyconst.Unknowable as ex:
+            ctx.need(False, f"_generate_expression cannot be interpreted on a model expression tree ({ex})")
+        ctx.analysed["paths"] += 1
+        if got[0] != "return" or not isinstance(got[1], tuple) or len(got[1]) != 2 or not isinstance(got[1][0], str):
+            return None
+        return got[1][0].replace(" ", ""), bool(got[1][1])
+
+    def decide(rid, role, trees):
+        bad = None
+        for e in trees:
+            got, want = run(e), ref(e)
+            if got != (want[0], bool(want[1])) and bad is None:
+                bad = f"printed {got}, Verilog semantics of the tree needs {want}"
+        ctx.ob(rid, EXP, "_generate_expression", role, bad is None, bad or "", funcs["_generate_expression"])
+    a_, b_, c_ = (lambda s_: S("a", s_)), (lambda s_: S("b", s_)), S("c", False, 1)
+    for sa, sb in itertools.product((False, True), repeat=2):
+        decide("C01.e", f"binary signs {(sa, sb)}: exactly the unsigned operand is made signed, result signed iff one is",
+               [OP(op, a_(sa), b_(sb)) for op in ("+", "-", "*", "&", "|", "^", "<", "<=", "==", "!=", ">", ">=")])
+        decide("C01.e", f"mux data signs {(sa, sb)}: the selector is not promoted, the data operands are",
+               [OP("m", c_, a_(sa), b_(sb)), OP("m", S("c", True, 1), a_(sa), b_(sb))])
+    decide("C01.e", "shifts: no promotion of the shift amount", [OP(op, a_(sa), b_(sb)) for op in ("<<<", ">>>") for sa in (False, True) for sb in (False, True)])
+    decide("C01.e", "unary minus: wrap iff unsigned, result signed", [OP("-", a_(False)), OP("-", a_(True))])
+    decide("C01.e", "other unary operators keep the operand's sign", [OP("~", a_(False)), OP("~", a_(True))])
+    decide("C01.e", "signal and constant sign flags are the node's own", [a_(False), a_(True), C(3, 4, False), C(-3, 4, True), C(3, 4, True)])
+    decide("C01.e", "nested operators: promotion follows the sign of the sub-expression", [
+        OP("+", OP("*", a_(True), b_(False)), S("d", False)), OP("+", OP("-", a_(False)), S("d", False)), OP("m", c_, OP("+", a_(False), b_(False)), S("d", True)),
+        OP("==", SL(a_(True), 0, 4), C(-1, 4, True)), OP("+", CAT(a_(True), b_(True)), S("d", True)), OP("+", REP(a_(True), 2), S("d", True))])
+    decide("C01.i", "format <sign><bits>'d<value>", [C(5, 8), C(0, 1), C(255, 8)])
+    decide("C01.i", "magnitude = abs(node.value) in decimal", [C(-3, 4, True), C(-128, 8, True), C(10, 32)])
+    decide("C01.i", "sign '-' iff value < 0", [C(-1, 2, True), C(0, 2, True), C(1, 2, True)])
+    decide("C01.i", "width = node.nbits", [C(1, 1), C(1, 7), C(1, 64)])
+    decide("C01.j", "slice bounds inclusive, single bit without range, 1-bit value unsliced (by value)",
+           [SL(a_(False), 2, 5), SL(a_(False), 0, 8), SL(a_(True), 3, 4), SL(S("o", False, 1), 0, 1), SL(SL(a_(False), 2, 6), 1, 3)])
+    decide("C01.k", "Cat reversed once, Replicate braces, both unsigned (by value)",
+           [CAT(a_(False), b_(True), C(1, 1)), CAT(a_(True)), CAT(CAT(a_(False), b_(False)), S("d")), REP(a_(True), 3), REP(CAT(a_(False), b_(False)), 2)])
 
 
 def _memory_port_setup(ctx, mg):
